@@ -12,6 +12,8 @@ import (
 	"strings"
 )
 
+var undefinedAbbrev = regexp.MustCompile(`\$[A-Z][A-Z0-9_]+`)
+
 // Clause is one requires/ensures/invariant/assert-like clause.
 type Clause struct {
 	Kind   string // requires | ensures | invariant | modifies | decreases
@@ -127,6 +129,9 @@ func parseContractFile(path string, pkgPath string, pc *PkgContracts) error {
 		// textual abbreviations: "define NAME text" then $NAME in later lines of the same file
 		for name, text := range defines {
 			body = strings.ReplaceAll(body, "$"+name, text)
+		}
+		if m := undefinedAbbrev.FindString(body); m != "" && !strings.HasPrefix(strings.TrimSpace(body), "func ") && !strings.HasPrefix(strings.TrimSpace(body), "#") {
+			return fmt.Errorf("%s:%d: abbreviation %s is used before (or without) its define", path, i+1, m)
 		}
 		word, rest := splitWord(body)
 		switch word {
